@@ -1,5 +1,5 @@
 # replay of a bounded stand-in violation (C16): re-run native/c16_states.py
 import sys
-print('fock n=2 pure=True: wigner(0) on a 9 x 6 grid has shape (9, 6), the other representations return (6, 9)')
+print('bosonic n=2 pure=True cat-complex: parity_expectation([0]) = 0.19557 but sum_n (-1)^n p(n) from reduced_dm = 0.18871')
 print('REPLAY-VIOLATION')
 sys.exit(1)
